@@ -524,3 +524,79 @@ pub fn type_samples() -> Vec<(&'static str, V)> {
 
 #[allow(dead_code)]
 pub fn _unused(_: &schema::MapS) {}
+
+/// Names that differ from `s` but collide with it under the string hashes commonly hand-written
+/// for dispatch tables: any commutative fold (sum / xor of the bytes — anagrams), polynomial hashes
+/// `h = h * B + c` for B = 31, 33, 37 (one adjacent pair shifted by (+k, −k·B): equal over the
+/// integers, hence for every word size and seed), "length + first/last byte", and a common prefix
+/// of 4 / 8 bytes.  All results are printable ASCII and different from `s`.
+pub fn hash_lookalikes(s: &str) -> Vec<String> {
+    let b = s.as_bytes();
+    let mut out: Vec<String> = Vec::new();
+    let ok = |c: i32| (0x21..=0x7e).contains(&c);
+    if !b.is_ascii() || b.is_empty() {
+        return out;
+    }
+    // anagrams: swap two different bytes (first such pair, last such pair), and the reversal
+    'a: for i in 0..b.len() {
+        for j in (i + 1)..b.len() {
+            if b[i] != b[j] {
+                let mut x = b.to_vec();
+                x.swap(i, j);
+                out.push(String::from_utf8(x).unwrap());
+                break 'a;
+            }
+        }
+    }
+    'b: for i in (0..b.len()).rev() {
+        for j in (0..i).rev() {
+            if b[i] != b[j] {
+                let mut x = b.to_vec();
+                x.swap(i, j);
+                out.push(String::from_utf8(x).unwrap());
+                break 'b;
+            }
+        }
+    }
+    let mut r = b.to_vec();
+    r.reverse();
+    out.push(String::from_utf8(r).unwrap());
+    // polynomial hashes
+    for base in [31i32, 33, 37] {
+        for i in 0..b.len().saturating_sub(1) {
+            for k in [1i32, -1, 2, -2] {
+                let (a, c) = (b[i] as i32 + k, b[i + 1] as i32 - k * base);
+                if ok(a) && ok(c) {
+                    let mut x = b.to_vec();
+                    x[i] = a as u8;
+                    x[i + 1] = c as u8;
+                    out.push(String::from_utf8(x).unwrap());
+                }
+            }
+        }
+    }
+    // same length, same first and last byte, different middle; same first 4 / 8 bytes
+    if b.len() >= 3 {
+        let mut x = b.to_vec();
+        for m in x[1..b.len() - 1].iter_mut() {
+            *m = if *m == b'x' { b'y' } else { b'x' };
+        }
+        out.push(String::from_utf8(x).unwrap());
+    }
+    for p in [4usize, 8] {
+        if b.len() > p {
+            let mut x = b[..p].to_vec();
+            x.extend_from_slice(b"Zq");
+            out.push(String::from_utf8(x).unwrap());
+            let mut y = b.to_vec();
+            for m in y[p..].iter_mut() {
+                *m = if *m == b'x' { b'y' } else { b'x' };
+            }
+            out.push(String::from_utf8(y).unwrap());
+        }
+    }
+    out.retain(|x| x != s);
+    out.sort();
+    out.dedup();
+    out
+}
